@@ -15,7 +15,7 @@ Definition held (p : pc) : nat := krels (snd p).
 Definition needs_lock (pt : point) : bool :=
   match pt with
   | Enq1 _ _ | Enq2 | Run1 | Run2 | Run3 | Run4 _ | Run5 _ | Run6 _ | Done1 _ | Done2
-  | Sp1 _ | Sp2 _ | Bg1 _ | Sj1 _ | Sj2 _ | Sj3 | Sj4 _ | Sj5 _ | Sj6 _ | RelV _ => true
+  | Sp1 _ | Sp2 _ | Bg1 _ | Clear1 | Sj1 _ | Sj2 _ | Sj3 | Sj4 _ | Sj5 _ | Sj6 _ | RelV _ => true
   | _ => false
   end.
 Definition top_rel (k : kont) : bool := match k with KRel _ => true | _ => false end.
@@ -113,11 +113,10 @@ Qed.
   (* inversion of one step into the cases of the access programs *)
   Ltac case_code :=
     match goal with
-    | H : code ?bd ?io (?pt, ?k) = _ |- _ =>
+    | H : code ?bd ?vv (?pt, ?k) = _ |- _ =>
         destruct pt; simpl in H;
         try (match type of H with context [match ?k with _ => _ end] => destruct k; simpl in H end);
         try (match type of H with context [match bd ?j with _ => _ end] => destruct (bd j); simpl in H end);
-        try (match type of H with context [if io then _ else _] => destruct io; simpl in H end);
         try (match type of H with context [if ?f then _ else _] => destruct f; simpl in H end);
         try discriminate; inversion H; subst; clear H
     end.
@@ -152,8 +151,8 @@ Qed.
 
 Section Proofs.
   Variable bodies : Z -> body.
-  Variable isr_once : bool.
-  Notation code' := (code bodies isr_once).
+  Variable vr : variant.
+  Notation code' := (code bodies vr).
   Notation step' := (step pc code').
 
   Lemma inv1_wf : forall c t c', Inv1 c -> step' c t = Some c' ->
@@ -358,7 +357,7 @@ Section Proofs.
       unfold client. apply own_ret_to.
   Qed.
 
-  Lemma inv1_reachable : forall clients c, jc_reachable bodies isr_once clients c -> Inv1 c.
+  Lemma inv1_reachable : forall clients c, jc_reachable bodies vr clients c -> Inv1 c.
   Proof.
     intros clients c R. unfold jc_reachable in R.
     apply (reachable_ind_inv pc code' (jc_init clients) Inv1); auto.
